@@ -4,6 +4,7 @@ CONSTANTS
  NSlots = 2  MaxStreams = 3  MaxRecs = 2
  USizes <- TinyU  VSizes <- TinyV  Pads <- TinyP  FlagSet <- TinyF
  CommonU <- NoValues  CommonV <- NoValues
+ FamStreams <- NoValues  FamBase = 3  FamGroups <- NoValues
  Volume = FALSE
  MinSteps = 1  MaxSteps = 7
 VIEW View
